@@ -702,6 +702,44 @@ pub fn lengths_and_buffers(
                 }
                 Err(e) => vio.push(mk("overwrite-failed", e.display)),
             }
+            // the same bytes written in two pieces of very different size in one session (a short
+            // write followed by a long one and the other way round), on create and on append handles
+            if *len >= 2 {
+                let sp = live.root.join("sp").unwrap();
+                for k in [1usize, *len - 1] {
+                    evals += 1;
+                    let r = guard(|| -> Result<(), String> {
+                        let mut h = sp.create_file().map_err(|e| e.to_string())?;
+                        h.write_all(&content[..k]).map_err(|e| e.to_string())?;
+                        h.write_all(&content[k..]).map_err(|e| e.to_string())?;
+                        drop(h);
+                        let mut h = sp.append_file().map_err(|e| e.to_string())?;
+                        h.write_all(&content[k..]).map_err(|e| e.to_string())?;
+                        h.write_all(&content[..k]).map_err(|e| e.to_string())?;
+                        Ok(())
+                    });
+                    let mut want = content.clone();
+                    want.extend_from_slice(&content[k..]);
+                    want.extend_from_slice(&content[..k]);
+                    match (r, guard(|| (PathApi::read_all(&sp), PathApi::metadata(&sp)))) {
+                        (Ok(Ok(())), Ok((Ok(g), Ok(m)))) if g == want && m.len == want.len() as u64 => {}
+                        (r, o) => vio.push(mk(
+                            "two-writes-of-different-size-in-one-session",
+                            format!(
+                                "create: write({}) + write({}), append: write({}) + write({}): session {:?}, read back {:?} bytes (first difference at {:?}), expected {}",
+                                k,
+                                *len - k,
+                                *len - k,
+                                k,
+                                r,
+                                o.as_ref().map(|(g, _)| g.as_ref().map(|g| g.len()).map_err(|e| e.display.clone())),
+                                o.as_ref().ok().and_then(|(g, _)| g.as_ref().ok()).and_then(|g| g.iter().zip(want.iter()).position(|(a, b)| a != b)),
+                                want.len()
+                            ),
+                        )),
+                    }
+                }
+            }
             (evals, vio)
         })
         .collect();
